@@ -97,6 +97,35 @@ func vDetRun(scenario int, order uint32) *vDigest {
 		if W.n < vNE {
 			W.create([]int{cR1, cR2}, Entity{}, Entity{})
 		}
+	case 6: // batch removal over several tables, then the freed ids and tables are reused
+		W.w.RemoveEntities(NewFilter1[vChild](W.w).Batch(), nil)
+		for i := 0; i < W.n; i++ {
+			if W.e[i].has[cR1] {
+				W.e[i].alive = false
+			}
+		}
+		W.digest(d)
+		if W.n+2 <= vNE {
+			W.create([]int{cR1, cR2}, firstParent, W.e[1].h)
+			W.create([]int{cR1, cA}, W.e[1].h, Entity{})
+		}
+	case 7: // iteration order of a registered filter across target death and table recycling
+		f := NewFilter1[vChild](W.w).Register()
+		W.removeEntity(1)
+		if W.n < vNE {
+			W.create([]int{cR1, cA}, firstParent, Entity{})
+		}
+		q := f.Query()
+		for q.Next() {
+			d.ent(q.Entity())
+			d.ent(q.GetRelation(0))
+		}
+		W.w.RemoveEntities(f.Batch(RelIdx(0, firstParent)), func(e Entity) { d.ent(e) })
+		for i := 0; i < W.n; i++ {
+			if W.e[i].alive && W.e[i].has[cR1] && W.e[i].tgt[0] == firstParent {
+				W.e[i].alive = false
+			}
+		}
 	case 3:
 		W.removeEntity(0)
 		W.w.Shrink()
@@ -134,3 +163,5 @@ func VerifC12_Recycle()                { vDeterminism(2) }
 func VerifC12_ShrinkRecycle()          { vDeterminism(3) }
 func VerifC12_SharedTargetDeath()      { vDeterminism(4) }
 func VerifC12_SuccessiveTargetDeaths() { vDeterminism(5) }
+func VerifC12_BatchRemovalAndReuse()   { vDeterminism(6) }
+func VerifC12_RegisteredFilterOrder()  { vDeterminism(7) }
